@@ -864,3 +864,12 @@ Proof.
   split; [vm_compute; reflexivity|].
   unfold eqn. vm_compute. reflexivity.
 Qed.
+
+(* a token-only issuance (null asset amount): the library still lists the issued-asset tag, a verifier does not *)
+Definition ex_tn : bl_tin :=
+  bmk_tin (x01 :: ex_b 1) (ex_b 1) bl_zero32 true false true false true (ex_b 3) (ex_b 4).
+Theorem surjection_args_refuted_null_amount :
+  exists i, bl_tags_gen [true] [i] = bl_tags_val [true] [i] /\ bl_tags_gen [true] [i] <> bl_tags_true [i].
+Proof.
+  exists ex_tn. split; [reflexivity|]. intro H. vm_compute in H. discriminate H.
+Qed.
